@@ -242,7 +242,11 @@ def _get_all_filtered_from_db(context, filters):
         ))
     if 'prefix' in filters:
         query = query.filter(
-            models.Trait.name.like(str(filters['prefix'] + '%')))
+            # The prefix is a literal string: keep "_" and "%" in it from
+            # acting as LIKE wildcards.
+            models.Trait.name.like(
+                str(filters['prefix']).replace('/', '//').replace(
+                    '%', '/%').replace('_', '/_') + '%', escape='/'))
     if 'associated' in filters:
         if filters['associated']:
             query = query.join(
